@@ -5,14 +5,17 @@
     from NewSentPacketHandler; calls that violate the API contract ([op_valid]) are not executed. *)
 From Coq Require Import List ZArith Bool.
 From V Require Import Gen.Params SentPH.Model SentPH.ProofsHist SentPH.ProofsBase SentPH.ProofsOps2 SentPH.ProofsMain
-  SentPH.ProofsAckRules SentPH.ProofsTimer SentPH.ProofsSkipped SentPH.ProofsScalars SentPH.ProofsDrop.
+  SentPH.ProofsAckRules SentPH.ProofsTimer SentPH.ProofsSkipped SentPH.ProofsScalars SentPH.ProofsDrop SentPH.ProofsAudit.
 From V Require Congestion.Model.
 Import ListNotations.
 Open Scope Z_scope.
 
 (** (a) For every history and every frame id: (#OnAcked + #OnLost callbacks) + (#occurrences in packets
-    still tracked) + (#occurrences in packets discarded with their space / at 0-RTT rejection / as path
-    probes at a migration) = #times the id was handed to SentPacket. *)
+    still tracked) + (#occurrences in D) = #times the id was handed to SentPacket. D collects TWO classes of frames
+    that are never reported: frames of packets whose space was discarded (DropPackets Initial / Handshake / the 0-RTT
+    packets at a 0-RTT rejection) — the exemption of the property text — AND frames of path probe packets removed by
+    MigratedPath, which is NOT covered by the property text: see C06_exactly_once_split and the OPEN finding
+    C06_exactly_once_space_only_refuted below. *)
 Theorem C06_exactly_once : forall client validated ipn period maxPeriod rnd0 ops,
   0 <= ipn ->
   let '(st, D, H) := history_from client validated ipn period maxPeriod rnd0 ops in
@@ -53,8 +56,9 @@ Theorem C06_ack_unsent : forall st orc l now delay rs s,
 Proof. exact ack_unsent. Qed.
 Print Assumptions C06_ack_unsent.
 
-(** (c) A 1-RTT ACK covering a number that is recorded as skipped is a PROTOCOL_VIOLATION; no
-    callback fires, nothing is removed. *)
+(** (c) A 1-RTT ACK covering a number that is recorded as skipped is a PROTOCOL_VIOLATION; no callback fires,
+    bytesInFlight and the three spaces are unchanged. (Not "nothing changes": on a client that had not yet seen the
+    peer complete address validation, ReceivedAck sets that flag and recomputes the alarm before the check.) *)
 Theorem C06_ack_skipped : forall st orc now delay rs pn,
   sPanic st = 0 -> op_valid st (OAck sph_Enc1RTT now delay rs) = true ->
   In pn (hSkipped (spH (sApp st))) -> acks_pn rs pn = true ->
@@ -66,7 +70,10 @@ Print Assumptions C06_ack_skipped.
 
 (** (c) Which skipped numbers are recorded (repaired SkippedPacket): a new skip is always recorded; an older
     one is forgotten only when it lies below the lowest packet number still tracked (or nothing is tracked);
-    no other operation of the history touches the list. *)
+    no other operation OF THE HISTORY DATA STRUCTURE (SentPacket, SentPathProbePacket, Remove, DeclareLost, probe
+    removal) touches the list. At handler level ResetForRetry replaces the whole application-data space (the list
+    starts again, with the generator's pending skip recorded: C06_retry_gap_rejected); C06_skipped_kept below
+    quantifies over all ops including ORetry. *)
 Theorem C06_skipped_recorded : forall h pn, In pn (hSkipped (h_skipped h pn)).
 Proof. exact skipped_recorded. Qed.
 Print Assumptions C06_skipped_recorded.
@@ -147,7 +154,10 @@ Print Assumptions C06_no_progress_bug.
 
 (** (d) In every history in which packets are sent at positive times: whenever Initial or Handshake
     packets are outstanding, or (after handshake confirmation) application-data packets, and sending is not
-    amplification-limited, the loss-detection alarm is set. *)
+    amplification-limited, the loss-detection alarm is set. "Outstanding" is the handler's numOutstanding > 0:
+    ack-eliciting packets that are neither path MTU probes nor path probes (C06_timer_mtu_probe_only_unarmed shows
+    the excluded case). Only "set" is claimed, not the deadline's value (that is the correspondence's job). The
+    hypothesis on send times is necessary (C06_timer_needs_positive_send_times). *)
 Theorem C06_timer_armed : forall client validated ipn period maxPeriod rnd0 ops,
   0 <= ipn -> send_times_positive ops ->
   let st := run (init client validated ipn period maxPeriod rnd0) ops in
@@ -264,3 +274,59 @@ Theorem C06_drop_discards : forall client validated ipn period maxPeriod rnd0 op
   (forall l', lvl_ok l' = true -> slot_of l' <> slot_of l -> get_space st' l' = get_space st l').
 Proof. exact drop_discards. Qed.
 Print Assumptions C06_drop_discards.
+
+(** ---- Audit round ---- *)
+
+(** (a) with the two exemption classes kept apart: Ds = frames of packets discarded with their space (Initial,
+    Handshake, 0-RTT rejection), Dm = frames of path probe packets removed by MigratedPath. *)
+Theorem C06_exactly_once_split : forall client validated ipn period maxPeriod rnd0 ops,
+  0 <= ipn ->
+  let '(st, Ds, Dm, H) := history2 client validated ipn period maxPeriod rnd0 ops in
+  forall id, cntcb id (sCbs st) + cnt id (tracked_ids st) + cnt id Ds + cnt id Dm = cnt id H.
+Proof. exact exactly_once_split. Qed.
+Print Assumptions C06_exactly_once_split.
+
+(** Without migrations Dm stays empty: then only "space discarded" exempts a frame, as the property says. *)
+Theorem C06_no_migration_no_extra_exemption : forall ops st Ds Dm H,
+  Forall (fun oo => match fst oo with OMigrate _ => False | _ => True end) ops ->
+  snd (fst (grun2 st Ds Dm H ops)) = Dm.
+Proof. exact grun2_no_migrate. Qed.
+Print Assumptions C06_no_migration_no_extra_exemption.
+
+(** OPEN FINDING (key sentph/migrate-drops-probe-frames): the strict clause (a) is false — a path probe outstanding at
+    MigratedPath is removed without any callback although no space is discarded (no ODrop, no ORetry in the history). *)
+Theorem C06_exactly_once_space_only_refuted :
+  let '(st, Ds, Dm, H) := history2 false true 0 256 131072 100 mig_ops in
+  H = [9] /\ Ds = [] /\ Dm = [9] /\ sCbs st = [] /\ tracked_ids st = [] /\ sPanic st = 0.
+Proof. exact exactly_once_space_only_refuted. Qed.
+Print Assumptions C06_exactly_once_space_only_refuted.
+
+(** (c) Regression for the Retry repair (key sentph/ack-skipped-at-retry): the number the generator was about to skip
+    when ResetForRetry re-created the space is recorded, an ACK covering it is rejected. *)
+Example C06_retry_gap_rejected :
+  let st := run (init true false 0 1 1 0) retry_ops in
+  hSkipped (spH (sApp st)) = [3] /\ map fst (h_list (spH (sApp st))) = [4] /\
+  snd (step st (OAck 4 1033000000 0 [(3, 4)], w_orc)) = 2 /\ snd (step st (OAck 4 1033000000 0 [(4, 4)], w_orc)) = 0.
+Proof. exact retry_gap_rejected. Qed.
+Print Assumptions C06_retry_gap_rejected.
+
+Example C06_timer_mtu_probe_only_unarmed :
+  let st := run (init false true 0 256 131072 100)
+                [ (ODrop 1 1000000000, w_orc); (ODrop 2 1000000000, w_orc); (OSend 4 1000000001 (-1) [] [1] 1400 true false 0, w_orc) ] in
+  sBif st = 1400 /\ hNumOut (spH (sApp st)) = 0 /\ sConf st = true /\ aTime (sAlarm st) = 0.
+Proof. exact timer_mtu_probe_only_unarmed. Qed.
+Print Assumptions C06_timer_mtu_probe_only_unarmed.
+
+Example C06_timer_needs_positive_send_times :
+  let st := run (init true false 0 256 131072 100) [ (OSend 1 0 (-1) [] [1] 1200 false false 0, w_orc) ] in
+  hasOutstandingCrypto st = true /\ isAmplificationLimited st = false /\ aTime (sAlarm st) = 0.
+Proof. exact timer_needs_positive_send_times. Qed.
+Print Assumptions C06_timer_needs_positive_send_times.
+
+Example C06_timer_armed_crypto_nonvacuous :
+  let ops := [ (OSend 1 1000000000 (-1) [] [1] 1200 false false 0, w_orc); (OSend 2 1001000000 (-1) [] [2] 800 false false 0, w_orc) ] in
+  let st := run (init false true 0 256 131072 100) ops in
+  send_times_positive ops /\ hasOutstandingCrypto st = true /\ sConf st = false /\ isAmplificationLimited st = false /\
+  aTime (sAlarm st) = 1200000000.
+Proof. exact timer_armed_crypto_nonvacuous. Qed.
+Print Assumptions C06_timer_armed_crypto_nonvacuous.
